@@ -196,20 +196,49 @@ def run(ctx):
         ctx.inst(RS, k, sample={"line": m["line"], "chars": len(txt)})
         loc = "%s:%s" % (META, m["line"])
         pos = {}
-        pats = {
-            "closure": r"asyncmove\|#df:&mut#root::scheduled::context::Context\|",
-            "subgraphs": r"#gated_subgraph_code",
-            "schedule": r"iffalse#\(\|\|!#non_lazy_schedule_idents\.is_empty\(\)\)\*\{#df\.schedule_subgraph\(true\);\}",
-            "swaps": r"#\(#back_edge_swap_code\)\*",
-            "tickend": r"#\(#op_tick_end_code\)\*",
-            "endtick": r"#df\.__end_tick\(\);",
-        }
-        for nm, pat in pats.items():
-            ms = [x.start() for x in re.finditer(pat, txt)]
-            if len(ms) != 1:
-                ctx.violation(RS, k + "|" + nm, "the tick-closure template contains %d occurrence(s) of the `%s` element (expected exactly one)" % (len(ms), nm), loc)
+        # slot names are read from the template itself (a renamed generator variable must not raise an alarm)
+        pos = {}
+        slots = {}
+        m_cl = re.search(r"asyncmove\|#(\w+):&mut#root::scheduled::context::Context\|", txt)
+        m_sched = re.search(r"iffalse#\(\|\|!#(\w+)\.is_empty\(\)\)\*\{#(\w+)\.schedule_subgraph\(true\);\}", txt)
+        m_end = re.findall(r"#(\w+)\.__end_tick\(\);", txt)
+        if not m_cl:
+            ctx.violation(RS, k + "|closure", "the template has no `async move |<ctx>: &mut Context|` tick closure", loc)
+        else:
+            pos["closure"] = m_cl.start()
+            slots["df"] = m_cl.group(1)
+        if not m_sched or len(re.findall(r"schedule_subgraph\(", txt)) != 1:
+            ctx.violation(RS, k + "|schedule", "the template does not contain exactly one `if false #(|| !#<bufs>.is_empty())* { <ctx>.schedule_subgraph(true); }` test", loc)
+        else:
+            pos["schedule"] = m_sched.start()
+            slots["sched"] = m_sched.group(1)
+        if len(m_end) != 1:
+            ctx.violation(RS, k + "|endtick", "the tick-closure template contains %d `__end_tick()` calls (expected exactly one)" % len(m_end), loc)
+        else:
+            pos["endtick"] = txt.index("#%s.__end_tick();" % m_end[0])
+        if "closure" in pos and "schedule" in pos and "endtick" in pos:
+            before = txt[pos["closure"]:pos["schedule"]]
+            between = txt[m_sched.end():pos["endtick"]]
+            sg = re.findall(r"(?<![(#\w])#(\w+)(?=#\[allow|#\[|iffalse|$)", before)
+            m_sub = re.search(r"#(\w+)(?:#\[allow\([^\]]*\)\])?$", before)
+            m_swaps = re.match(r"#\(#(\w+)\)\*\}", between)
+            m_te = re.search(r"\}#\(#(\w+)\)\*$", between)
+            if m_sub:
+                pos["subgraphs"] = pos["closure"] + m_sub.start()
+                slots["subgraphs"] = m_sub.group(1)
             else:
-                pos[nm] = ms[0]
+                ctx.violation(RS, k + "|subgraphs", "no subgraph-code slot directly before the schedule test", loc)
+            if m_swaps:
+                pos["swaps"] = m_sched.end()
+                slots["swaps"] = m_swaps.group(1)
+            else:
+                ctx.violation(RS, k + "|swaps", "the schedule test is not directly followed by the repeated tick-level swap slot closing the block", loc)
+            if m_te:
+                pos["tickend"] = m_sched.end() + m_te.start() + 1
+                slots["tickend"] = m_te.group(1)
+            else:
+                ctx.violation(RS, k + "|tickend", "the repeated tick-end slot is not directly before __end_tick()", loc)
+        ctx.extra["template_slots"] = slots
         order = ["closure", "subgraphs", "schedule", "swaps", "tickend", "endtick"]
         if all(n in pos for n in order):
             if [pos[n] for n in order] != sorted(pos[n] for n in order):
@@ -239,7 +268,7 @@ def run(ctx):
         ctx.anchor_missing(RL, "DfirGraph::as_code_with_options")
         return
     # (a) non_lazy_schedule_idents
-    cls = closures_feeding(c, ab, "non_lazy_schedule_idents")
+    cls = closures_feeding(c, ab, ctx.extra.get("template_slots", {}).get("sched", "non_lazy_schedule_idents"))
     cls = [x for x in cls if any("DelayType" in rvs for rvs in _discr_types(c.bodies[x]))]
     if len(cls) != 1:
         ctx.anchor_missing(RL, "the filter closure feeding `non_lazy_schedule_idents` (found %d)" % len(cls))
@@ -260,8 +289,30 @@ def run(ctx):
             res0, la = table[v]
             if res0 == "ret" and la == ("variant", "None") :
                 ctx.violation(RL, k + "|nonlazy-skipped:" + v, "a %s (non-lazy) handoff is filtered out of the schedule test: data deferred to the next tick would not start that tick" % v, c.bodies[cd].loc())
+    # (a') sibling agreement: the tick-level swap list treats consumers inside a root-level loop specially (their swap happens inside the loop gate);
+    # the schedule test must make the same distinction, otherwise it looks at the wrong one of the two buffers for those handoffs
+    RSIB = ctx.rule("C24.rootloop", "the schedule test distinguishes root-level-loop consumers whenever the tick-level swap code does (both consult loop_parent)", floor=1)
+
+    def callee_names(cdefs):
+        out = set()
+        for cd in cdefs:
+            for d, bd in c.bodies.items():
+                if d == cd or d.startswith(cd + "::"):
+                    for bb, t in bd.calls():
+                        if t.get("f"):
+                            out.add(t["f"]["name"])
+        return out
+    slots_ = ctx.extra.get("template_slots", {})
+    swap_cls = closures_feeding(c, ab, slots_.get("swaps", "back_edge_swap_code"))
+    sched_cls = closures_feeding(c, ab, slots_.get("sched", "non_lazy_schedule_idents"))
+    sw_names, sc_names = callee_names(swap_cls), callee_names(sched_cls)
+    ctx.inst(RSIB, "dfir_lang|as_code_with_options|root-loop-agreement", sample={"swap_code_consults_loop_parent": "loop_parent" in sw_names, "schedule_test_consults_loop_parent": "loop_parent" in sc_names})
+    if "loop_parent" in sw_names and "loop_parent" not in sc_names:
+        ctx.violation(RSIB, "dfir_lang|as_code_with_options|root-loop-agreement|schedule-ignores-root-loop", "the tick-level swap code excludes handoffs consumed in a root-level loop (they are swapped "
+                      "inside the loop gate) but the schedule test does not consult loop_parent: for those handoffs it reads the buffer that was already swapped away, so data deferred to the next "
+                      "tick does not start that tick", ab.loc())
     # (b) tick-level swap filter
-    cls = closures_feeding(c, ab, "back_edge_swap_code")
+    cls = closures_feeding(c, ab, ctx.extra.get("template_slots", {}).get("swaps", "back_edge_swap_code"))
     dcs = sorted(set(x for cd in cls for x in nested_delay_closures(c, cd)))
     if len(dcs) != 1:
         ctx.anchor_missing(RL, "the DelayType predicate of the tick-level swap filter (found %d)" % len(dcs))
